@@ -50,8 +50,9 @@ Inductive case :=
             (* (i, j, outcome class of InclusionProof(i,j), of ConsistencyProof(i,j)):
                0 = a proof, 1 = an error, 2 = a Go panic — for out-of-range arguments *)
             (edges : list (N * N * N * N))
-(* Size() after a history that may restart (Close + Open) after a rewind: the known finding
-   "ahtree rewind not durable" is IN the model (Merkle/AHTReopen.v aht_rewind_not_durable_refuted) *)
+(* Size() after a history with a restart (Close + Open) after a rewind: durable once an append
+   followed the rewind (09014a8), NOT durable otherwise: the known finding "ahtree bare rewind not
+   durable" is IN the model (Merkle/AHTReopen.v aht_bare_rewind_not_durable_refuted) *)
 | CAhtProbe (ops : list aop2) (sz : N)
 (* (n, nodesUpto n, nodesUntil n, levelsAt n) *)
 | CAhtArith (rows : list (N * N * N * N))
@@ -73,7 +74,7 @@ Definition case_ok (c : case) : bool :=
   | CSha i o => bytes_eqb (Hs i) o
   | CAht p roots => lbytes_eqb (prefixes_roots (length p) p 1) roots
   | CAhtModel ops digs roots ips cps edges =>
-      let t := fst (aht_run2 Hs ops) in
+      let t := rtree (aht_run2 Hs ops) in
       (dsize t =? lenN digs) && (lenN roots =? size t) &&
       lbytes_eqb (firstn (N.to_nat (dsize t)) (dlog t)) digs &&
       roots_ok t digs 1 roots &&
@@ -81,7 +82,7 @@ Definition case_ok (c : case) : bool :=
       forallb (fun '(i, j, ix) => res_eqb lbytes_eqb (consistency_proof t i j) (nthsN digs ix)) cps &&
       forallb (fun '(i, j, ci, cc) => (res_class (inclusion_proof t i j) =? ci) &&
                                       (res_class (consistency_proof t i j) =? cc)) edges
-  | CAhtProbe ops sz => size (fst (aht_run2 Hs ops)) =? sz
+  | CAhtProbe ops sz => size (rtree (aht_run2 Hs ops)) =? sz
   | CAhtArith rows =>
       forallb (fun '(n, up, un, lv) =>
                  (nodes_upto n =? up) && (nodes_until n =? un) && (levels_at n =? lv)) rows
